@@ -235,29 +235,37 @@ func run(c *core.Case) {
 			c.Logf("exemplar commit: %v", err)
 		}
 	}
-	// series refs handed out over the history: a ref that denotes two different label sets was
-	// reissued (the signature of a known finding, see FINDINGS.txt)
-	refOwners := map[uint64]map[string]bool{}
-	trackRefs := func() {
-		for ref, ls := range e.DB.Head().VerifSeriesRefs() {
-			if refOwners[ref] == nil {
-				refOwners[ref] = map[string]bool{}
+	// Series refs over the history.  An appender allocates lastSeriesID+1, so a ref that first
+	// shows up right after an APPEND step must never have been seen before; if it was, the ref
+	// was reissued (the signature of a known finding, see FINDINGS.txt).
+	everOwners := map[uint64]map[string]bool{} // ref → label sets that ever held it
+	prevRefs := map[uint64]bool{}
+	reissuedRefs := map[uint64]bool{}
+	trackRefs := func(afterAppend bool) {
+		cur := e.DB.Head().VerifSeriesRefs()
+		now := map[uint64]bool{}
+		for ref, ls := range cur {
+			now[ref] = true
+			if afterAppend && !prevRefs[ref] && everOwners[ref] != nil {
+				reissuedRefs[ref] = true
 			}
-			refOwners[ref][ls.String()] = true
+			if everOwners[ref] == nil {
+				everOwners[ref] = map[string]bool{}
+			}
+			everOwners[ref][ls.String()] = true
 		}
+		prevRefs = now
 	}
 	reissued := func() (desc []string, involved map[string]bool) {
 		involved = map[string]bool{}
 		var refs []uint64
-		for ref, owners := range refOwners {
-			if len(owners) > 1 {
-				refs = append(refs, ref)
-			}
+		for ref := range reissuedRefs {
+			refs = append(refs, ref)
 		}
 		sort.Slice(refs, func(i, j int) bool { return refs[i] < refs[j] })
 		for _, ref := range refs {
 			var os []string
-			for o := range refOwners[ref] {
+			for o := range everOwners[ref] {
 				os = append(os, o)
 				involved[o] = true
 			}
@@ -285,7 +293,7 @@ func run(c *core.Case) {
 		re, _ := reissued()
 		return fmt.Sprintf("config {%s}\nsnapshots after Close: %v; variant %s; reissued series refs: %v\nhistory: %s", cfg, snaps, variant, re, h)
 	}
-	var unclean string // image for the outdated-snapshot variant
+	var unclean string                    // image for the outdated-snapshot variant
 	uncleanAt := -1
 	if variant == "outdated-snapshot-unclean-image" {
 		uncleanAt = nops/2 + r.IntN(nops/2+1)
@@ -306,7 +314,7 @@ func run(c *core.Case) {
 		if e.DB == nil {
 			return
 		}
-		trackRefs()
+		trackRefs(op.Kind == "append")
 		// keep the model's allowed-not-required bookkeeping current (it learns from what it sees)
 		if op.Kind != "append" || r.IntN(3) == 0 {
 			if diff := e.Check(r); diff != "" {
@@ -433,8 +441,8 @@ func run(c *core.Case) {
 			why := ""
 			if ok, txt := lossOfNonPositive(a, b); ok {
 				kind, why = nonPosKind, "\nclassification: "+txt
-			} else if ok, txt := onlyDeletedDiffer(e, a.sample, b.sample); ok {
-				kind, why = "deleted-samples-differ-between-snapshot-and-wal-restart", "\nclassification: "+txt
+			} else if ok, txt := onlyTombstonedDiffer(e, a.sample, b.sample); ok {
+				kind, why = "head-tombstones-differ-between-snapshot-and-wal-restart", "\nclassification: "+txt
 			} else if k := refKind(d); k != "" {
 				kind = k
 			}
@@ -519,10 +527,13 @@ func run(c *core.Case) {
 		if errV == nil && errW == nil {
 			if d := tsdbx.EqualDumps(v.sample, w.sample); d != "" && v.modelDiff == "" && w.modelDiff == "" {
 				kind := "snapshot-vs-wal-mismatch"
-				if k := refKind(d); k != "" {
+				why := ""
+				if ok, txt := onlyTombstonedDiffer(uncleanModel, v.sample, w.sample); ok {
+					kind, why = "head-tombstones-differ-between-snapshot-and-wal-restart", "\nclassification: "+txt
+				} else if k := refKind(d); k != "" {
 					kind = k
 				}
-				c.Violatef(kind, "%s: with vs without the outdated snapshot: %s\n%s", where, d, witness())
+				c.Violatef(kind, "%s: with vs without the outdated snapshot: %s%s\n%s", where, d, why, witness())
 			}
 		}
 	}
@@ -586,9 +597,11 @@ func debugOpen(dir string, cfg tsdbhist.Config) {
 	db.Close()
 }
 
-// onlyDeletedDiffer: every sample on which the two dumps differ had been removed by a DB.Delete
-// (it is in the executor's DeletedVals with that value) and is not in the model.
-func onlyDeletedDiffer(e *tsdbhist.Exec, a, b tsdbx.Dump) (bool, string) {
+// onlyTombstonedDiffer: every sample on which the two dumps differ is governed by a head
+// tombstone: it had been removed by a DB.Delete (in the model executor's DeletedVals with that
+// value, not in the model), or it was appended out-of-order into a range deleted earlier for its
+// series (the executor's Ghosts).
+func onlyTombstonedDiffer(e *tsdbhist.Exec, a, b tsdbx.Dump) (bool, string) {
 	n := 0
 	first := ""
 	oneWay := func(x, y tsdbx.Dump, side string) bool {
@@ -601,7 +614,9 @@ func onlyDeletedDiffer(e *tsdbhist.Exec, a, b tsdbx.Dump) (bool, string) {
 				if v, ok := have[s.T]; ok && v == s.ValKey() {
 					continue
 				}
-				if !e.DeletedVals[k][s.T][s.ValKey()] || e.Model[k][s.T] != nil {
+				deleted := e.Model[k][s.T] == nil && e.DeletedVals[k][s.T][s.ValKey()]
+				ghost := e.Model[k][s.T] != nil && e.Ghosts[k][s.T]
+				if !deleted && !ghost {
 					return false
 				}
 				if first == "" {
@@ -615,7 +630,7 @@ func onlyDeletedDiffer(e *tsdbhist.Exec, a, b tsdbx.Dump) (bool, string) {
 	if !oneWay(a, b, "snapshot") || !oneWay(b, a, "WAL-only") || n == 0 {
 		return false, ""
 	}
-	return true, fmt.Sprintf("all %d differing samples had been deleted with DB.Delete and are not in the model (e.g. %s): head tombstones that the running head had already truncated are missing from the snapshot but are replayed from the WAL, while the deleted data is reloaded from not yet removed head chunk files / the WAL once no block bounds the replay", n, first)
+	return true, fmt.Sprintf("all %d differing samples had been deleted with DB.Delete or were appended out-of-order into a range deleted earlier for their series (e.g. %s): the two restarts hold different head tombstones (the running head truncates them with the head and snapshots what is left, WAL replay re-reads all tombstone records)", n, first)
 }
 
 func classify(diff string) string {
